@@ -1,2 +1,11 @@
-import AlgoVerif.Common
-/-! # C06 — property theorems (none yet) -/
+import AlgoVerif.Model.C06Run
+/-!
+# C06 — property theorems (statements only live here; helper lemmas in `Proofs/C06*.lean`)
+-/
+open AlgoVerif AlgoVerif.C06
+
+/-- D9e (known finding): after `Put "a"`, `Put "a\x00"` panics in the Patricia trie. -/
+theorem C06_patricia_trailing_nul_counterexample :
+    Patricia.run (Patricia.new : Patricia Int) [.put [0x61] 1, .put [0x61, 0x00] 2]
+      = [.ok .unit, .panic] := by
+  decide
